@@ -279,6 +279,12 @@ def _trace_stats(steps, acc, depth=0):
                 acc["if"] += 1
             if s["op"] == "Loop":
                 acc["loop"] += 1
+            if s["op"] == "Scan":
+                acc["scan"] += 1
+            if s.get("vlit"):
+                acc["hetero_lit"] += 1
+            if s["op"] in ("Max", "Min", "Sum", "Mean", "Concat") and any(a[0] == "lit" for a in s["args"]):
+                acc["homo_lit"] += 1
             if not isinstance(s["outs"], int):
                 acc["named"] += 1
             for a in s["args"]:
@@ -292,7 +298,8 @@ def _trace_stats(steps, acc, depth=0):
 
 
 def _new_stats():
-    return {"steps": 0, "depth": 0, "fn": 0, "if": 0, "loop": 0, "named": 0, "lits": 0, "castlike": 0, "ops": set()}
+    return {"steps": 0, "depth": 0, "fn": 0, "if": 0, "loop": 0, "scan": 0, "hetero_lit": 0, "homo_lit": 0, "named": 0, "lits": 0,
+            "castlike": 0, "ops": set()}
 
 
 def run_traces(ctx, bcfg):
@@ -320,14 +327,15 @@ def run_traces(ctx, bcfg):
             cnt["models"] += 1
             st = _trace_stats(info["steps"], _new_stats())
             if mode == "call":
-                for k in ("steps", "fn", "if", "loop", "named", "lits", "castlike"):
+                for k in ("steps", "fn", "if", "loop", "scan", "hetero_lit", "homo_lit", "named", "lits", "castlike"):
                     tot[k] += st[k]
                 tot["depth"] = max(tot["depth"], st["depth"])
                 tot["ops"] |= st["ops"]
                 cnt["traces"] += 1
-                cnt["with_sub"] += bool(st["if"] or st["loop"])
+                cnt["with_sub"] += bool(st["if"] or st["loop"] or st["scan"])
                 cnt["with_fn"] += bool(st["fn"])
-            ctx.case(("trace", mode, min(st["steps"], 20) // 4, st["depth"], bool(st["if"]), bool(st["loop"]), bool(st["fn"]),
+            ctx.case(("trace", mode, min(st["steps"], 20) // 4, st["depth"], bool(st["if"]), bool(st["loop"]), bool(st["scan"]),
+                      bool(st["hetero_lit"]), bool(st["homo_lit"]), bool(st["fn"]),
                       bool(st["named"]), bool(st["castlike"]), bool(st["lits"])))
             if t == 0 and mode == "call":
                 ctx.sample({"model": "B/C", "trace": TR.steps_lit(info["steps"])[:1500], "node_names": TR.node_names_creation_order(proto.graph)[:12]})
@@ -443,7 +451,8 @@ def run_traces(ctx, bcfg):
                    f"GraphBuilder = Trace.v build ({bc}) on every trace", not disagree, f"{len(disagree)} disagreements")
     ctx.obligation("verified checker: wf_graphb holds on every serialized graph whose value names are distinct", not wf_bad)
     ctx.cover(traces=cnt["traces"], models_built=cnt["models"], traces_with_subgraphs=cnt["with_sub"], traces_with_functions=cnt["with_fn"],
-              trace_steps=tot["steps"], trace_max_depth=tot["depth"], trace_ops=len(tot["ops"]), trace_if=tot["if"], trace_loop=tot["loop"],
+              trace_steps=tot["steps"], trace_max_depth=tot["depth"], trace_ops=len(tot["ops"]), trace_if=tot["if"], trace_loop=tot["loop"], trace_scan=tot["scan"],
+              trace_steps_with_literals_in_heterogeneous_variadic=tot["hetero_lit"], trace_steps_with_literals_in_homogeneous_variadic=tot["homo_lit"],
               trace_fn_steps=tot["fn"], trace_explicit_outputs=tot["named"], trace_literals=tot["lits"], trace_castlike=tot["castlike"],
               traces_redefining_outer_name=cnt["redefines"], traces_disjoint_duplicates=cnt["disjoint"], ort_runs=cnt["ort_runs"],
               traces_inline_vs_call_compared=cnt["inline_vs_call"], models_node_names_repeated_across_graphs=cnt["node_names_repeated_across_graphs"],
@@ -554,7 +563,12 @@ def run(ctx):
                "(C12 owns literal promotion); the dtype knowledge of the builder (shape inference) is observed per value; nodes added by "
                "call_inline are observed (CRaw), not modelled; attribute order inside a node is not compared")
     ctx.assume("kernel semantics: onnxruntime CPU kernels with ORT_DISABLE_ALL against a hand-written NumPy reading of 62 operators, "
-               "If, Loop (no scan outputs) and 6 script/IR functions, on 3 input sets per model, rtol 2e-4 / atol 2e-5")
+               "If, Loop (no scan outputs), Scan and 6 script/IR functions, on 3 input sets per model; dtype and shape of every graph output "
+               "compared exactly, int/bool values exactly, float values rtol 2e-4 / atol 2e-5 x largest intermediate magnitude")
+    ctx.assume("dtype of a Python literal operand in the NumPy reading: the dtype of the first tensor operand bound to the same schema type "
+               "variable (homogeneous variadic inputs Max/Min/Sum/Mean/Concat included, at every position); the dtype of its own Python type "
+               "(int64 / float32 / bool) where nothing binds it, in particular at every position of a heterogeneous variadic input "
+               "(Loop v_initial, Scan initial_state_and_scan_inputs)")
     ctx.check_props()
     cfg = probe_cfg(ctx)
     run_trees(ctx, cfg)
@@ -562,7 +576,9 @@ def run(ctx):
     replay_subgraph_witness(ctx, bcfg)
     run_traces(ctx, bcfg)
     run_inline_args(ctx)
-    ctx.cover(rule="B/C: random traces over 62 operators + If/Loop subgraph bodies (depth <= 2) + op.call/op.call_inline of script and IR "
+    ctx.cover(rule="B/C: random traces over 62 operators + If/Loop/Scan subgraph bodies (depth <= 2; Loop/Scan states given as tensors and as "
+                   "Python literals int/float/bool/list at every position; literals at every position of Max/Min/Sum/Mean/Concat next to "
+                   "float and int64 tensors) + op.call/op.call_inline of script and IR "
                    "functions with attribute arguments, literal operands (ints/floats/lists), explicit _outputs, nested module scopes; every trace "
                    "built with op.call and, when it calls functions, again with op.call_inline; distinct key = (mode, size bucket, depth, If, Loop, "
                    "functions, explicit outputs, CastLike, literals).  A: construction programs (witnesses of the _refuted theorems, random programs of depth <= 4 mixing Module/ModuleList/"
